@@ -219,7 +219,7 @@ pub fn run(ctx: &Ctx) -> i32 {
             ctx.sample(|| J::obj(vec![("K", J::i(K)), ("T", J::i(T)), ("relations", J::s("pk(A^B)=pk(A)^pk(B); pk(c*A)=c*pk(A); byte j = T=1 packet of column j; decode(pk(A)^pk(B))=A^B"))]));
         }
     });
-    let nobj = ctx.args.pick(300, 5000);
+    let nobj = ctx.args.pick(3000, 30000);
     par_for(nobj, |i| run_object_case(ctx, ctx.seed(), i as u64, &rel));
     ctx.eval(nobj);
     ctx.cov("symbol_sizes_covered", J::s("every T in 1..=200 and 255,256,257,1023,1024,1025,1280,1316, plus large symbols 4096..65535 (slabs of several MiB)"));
